@@ -144,8 +144,15 @@ def component_text(rng, version, cref, ec, tok, fill=0.5, invalid_p=0.0, depth=0
     return ec['SUBCOMPONENT'].join(parts)
 
 
-def field_text(rng, version, fref, ec, tok, fill=0.5, invalid_p=0.0, stats=None):
-    """Text of one field repetition."""
+def field_text(rng, version, fref, ec, tok, fill=0.5, invalid_p=0.0, stats=None, overflow_p=0.0):
+    """Text of one field repetition.  overflow_p: probability of more components than the datatype
+    defines (outside the element model's regime; used by the call corpus only)."""
+    if overflow_p and rng.random() < overflow_p:
+        base = field_text(rng, version, fref, ec, tok, 1.0, 0.0, stats)
+        n_def = len(fref[1]) if fref[0] == 'sequence' and fref[1] else 1
+        have = base.count(ec['COMPONENT']) + 1
+        pad = ec['COMPONENT'] * max(0, n_def - have)
+        return base + pad + ec['COMPONENT'] + valid_literal('ST', tok, rng) + ec['COMPONENT'] + valid_literal('ST', tok, rng)
     dt = fref[2]
     if dt is None or dt == 'varies':
         return valid_literal('ST', tok, rng)
@@ -168,7 +175,7 @@ def field_text(rng, version, fref, ec, tok, fill=0.5, invalid_p=0.0, stats=None)
 
 
 def segment_text(rng, version, name, ec=STD_EC, tok=None, fill=0.35, invalid_p=0.0, required=True, reps=True,
-                 stats=None, max_fields=None):
+                 stats=None, max_fields=None, overflow_p=0.0):
     """One in-structure segment line (not MSH).  Returns text without trailing separator."""
     tok = tok or Tokens()
     if name not in T.segments(version):      # Z segment: a few ST fields
@@ -192,7 +199,7 @@ def segment_text(rng, version, name, ec=STD_EC, tok=None, fill=0.35, invalid_p=0
             n = 2 if mx == -1 or mx >= 2 else 1
             if (mx == -1 or mx >= 3) and rng.random() < 0.3:
                 n = 3
-        fields.append(ec['REPETITION'].join(field_text(rng, version, fref, ec, tok, fill, invalid_p, stats)
+        fields.append(ec['REPETITION'].join(field_text(rng, version, fref, ec, tok, fill, invalid_p, stats, overflow_p)
                                             for _ in range(n)))
     while fields and fields[-1] == '':
         fields.pop()
